@@ -150,6 +150,11 @@ pub fn generate(prop: NetProp, seed: u64, tier: Tier) -> Case<NetCfg, NetOp> {
     if wrap {
         op_profile = 5;
     }
+    // C02 only: a deep backlog (> 512 vital chunks unacknowledged at once) built during a blackout
+    let backlog = prop == NetProp::C02 && !wrap && c.chance(1, 30);
+    if backlog {
+        op_profile = 6;
+    }
     let n_target: usize = if wrap {
         9000
     } else {
@@ -168,12 +173,13 @@ pub fn generate(prop: NetProp, seed: u64, tier: Tier) -> Case<NetCfg, NetOp> {
     };
     // the wrap profile must get >1024 vital chunks through: light faults only
     let (loss, dup, reorder, sendfail) = if wrap { (loss.min(30), dup.min(30), reorder.min(100), sendfail.min(5)) } else { (loss, dup, reorder, sendfail) };
-    let window = if wrap { *c.pick(&[64u32, 128, 400]) } else { 0 };
-    let window = if wrap { window } else { match prop {
+    let window = if wrap { *c.pick(&[64u32, 128, 400]) } else if backlog { 720 } else { 0 };
+    let window = if wrap || backlog { window } else { match prop {
         NetProp::C02 => c.range(4, 96) as u32,
         _ => *c.pick(&[8u32, 64, 200, 400, 400]),
     } };
-    let age = c.range(200, 400) as u32;
+    // window + age stays below the 10-bit sequence space with a margin
+    let age = if backlog { 200 } else { c.range(200, 400) as u32 };
     let cfg = NetCfg {
         proto,
         seed: c.next_u64(),
@@ -255,6 +261,31 @@ pub fn generate(prop: NetProp, seed: u64, tier: Tier) -> Case<NetCfg, NetOp> {
         g.ops.push(NetOp::Flush { ep: 0 });
         g.pump(1);
     }
+    // ---- blackout: one side keeps submitting vital chunks while nothing is delivered
+    if op_profile == 6 {
+        let ep = g.s.below(2) as u8;
+        if ep == 1 {
+            g.pump(2);
+        }
+        let n = g.s.range(520, 700);
+        let every = g.s.range(1, 60);
+        for k in 0..n {
+            let len = g.s.range(0, 3) as u16;
+            let fill = g.s.below(4) as u8;
+            let tag = g.tag();
+            g.ops.push(NetOp::Send { ep, vital: true, len, fill, tag });
+            if k % every == 0 {
+                g.ops.push(NetOp::Flush { ep });
+            }
+            if g.s.chance(1, 40) {
+                g.ops.push(NetOp::Drop { dir: ep, pick: 0 });
+            }
+        }
+        g.ops.push(NetOp::Flush { ep });
+        if g.s.chance(1, 2) {
+            g.pump(1);
+        }
+    }
     // ---- main phase
     let weights: [u32; 9] = match op_profile {
         // send+flush, burst, flush, pump, deliver-one, time, tick, connless, senderr
@@ -263,9 +294,11 @@ pub fn generate(prop: NetProp, seed: u64, tier: Tier) -> Case<NetCfg, NetOp> {
         2 => [40, 8, 8, 22, 10, 8, 3, 1, 0],
         3 => [5, 40, 3, 20, 12, 12, 6, 1, 1],
         4 => [35, 8, 8, 28, 12, 3, 2, 1, 3],
-        _ => [55, 2, 0, 35, 0, 8, 0, 0, 0],
+        5 => [55, 2, 0, 35, 0, 8, 0, 0, 0],
+        _ => [10, 0, 5, 30, 10, 30, 10, 0, 1],
     };
     let mut disconnected = false;
+    let n_target = if op_profile == 6 { g.ops.len() + n_target.min(60) } else { n_target };
     while g.ops.len() < n_target {
         match g.s.weighted(&weights) {
             0 => {
